@@ -294,6 +294,8 @@ Catalogue == {
   <<"tx_dup_on_chain", "replay_from_great_grandparent", "reject", {}>>,
   <<"tx_dup_on_chain", "replay_from_block_one", "reject", {}>>,
   <<"tx_dup_on_chain", "replay_beyond_scan_window", "reject", {}>>,
+  <<"tx_dup_on_chain", "replay_old_ref_from_parent", "reject", {}>>,
+  <<"tx_dup_on_chain", "replay_old_ref_from_grandparent", "reject", {}>>,
   <<"tx_blocklist", "origin_blocked", "blocklist", {}>>,
   <<"tx_blocklist", "delegator_blocked", "blocklist", {}>>,
   <<"tx_dep_present", "unknown_id", "reject", {}>>,
@@ -374,7 +376,8 @@ Applicable(c, k) ==
        [] k \in {<<"tx_dup_on_chain", "replay_from_great_grandparent">>, <<"tx_dep_not_reverted", "reverted_in_block_one">>,
                  <<"tx_dep_present", "dependency_in_block_one">>} -> GE(c.num, FromInt(4))
        [] k = <<"tx_dup_on_chain", "replay_ref_eq_inclusion_older">> -> GE(c.num, FromInt(5))
-       [] k = <<"tx_dup_on_chain", "replay_beyond_scan_window">> -> GE(c.num, FromInt(106))
+       [] k \in {<<"tx_dup_on_chain", "replay_beyond_scan_window">>, <<"tx_dup_on_chain", "replay_old_ref_from_parent">>,
+                 <<"tx_dup_on_chain", "replay_old_ref_from_grandparent">>} -> GE(c.num, FromInt(106))
        [] k \in {<<"tx_signature", "delegator_unrecoverable">>, <<"tx_blocklist", "delegator_blocked">>} -> g.vip191
        [] k = <<"tx_dup_on_chain", "replay_ref_eq_inclusion_from_parent">> -> GE(c.num, FromInt(2))
        [] k = <<"proposer_authorised", "endorsement_withdrawn">> -> ~g.pos
@@ -484,7 +487,9 @@ Mutate(c, k) ==
        [] k = <<"tx_dup_on_chain", "replay_ref_eq_inclusion_older">> ->
             AddTx(c, TxWith(c, [onchain |-> TRUE, ref |-> Monus(c.num, FromInt(4)), exp |-> FromInt(30)]))
        \* ... or a block more than 100 below (the duplicate is then found through the tx index)
-       [] k = <<"tx_dup_on_chain", "replay_beyond_scan_window">> ->
+       \* (first packed far back, or packed by the parent / grandparent with a block ref that old)
+       [] k \in {<<"tx_dup_on_chain", "replay_beyond_scan_window">>, <<"tx_dup_on_chain", "replay_old_ref_from_parent">>,
+                 <<"tx_dup_on_chain", "replay_old_ref_from_grandparent">>} ->
             AddTx(c, TxWith(c, [onchain |-> TRUE, ref |-> Monus(c.num, FromInt(104)), exp |-> MaxU32]))
        [] k = <<"tx_blocklist", "origin_blocked">> -> AddTx(c, TxWith(c, [blocked |-> TRUE]))
        [] k = <<"tx_blocklist", "delegator_blocked">> -> AddTx(c, TxWith(c, [blocked |-> TRUE, feat |-> 1]))
